@@ -94,7 +94,7 @@ func (w *World) Restore(s *Snap) {
 }
 
 func setPointRaw(p *edwards25519.Point, r alpha.PointRaw) {
-	*(*alpha.PointRaw)(unsafe.Pointer(p)) = r
+	alpha.SetPointLimbs(p, r)
 }
 func setScalarRaw(s *edwards25519.Scalar, r alpha.ScalarRaw) {
 	*(*alpha.ScalarRaw)(unsafe.Pointer(s)) = r
